@@ -30,6 +30,9 @@
 #include <fcntl.h>
 #include <unistd.h>
 #include <sys/stat.h>
+#include <sys/wait.h>
+#include <typeinfo>
+#include <map>
 
 using namespace stir;
 using sim::Op;
@@ -102,6 +105,40 @@ positions(const std::string& text)
   return v;
 }
 
+// every "[i]" of a vectorised key replaced by an index the storage cannot hold (0, negative, far too large) or by a neighbour
+std::vector<std::pair<std::string, long>>
+index_mutations(const std::string& text)
+{
+  std::vector<std::pair<std::string, long>> out;
+  static const char* repl[] = { "0", "-1", "-2", "-1000000", "1000000", "2147483647", "4294967297", "+", "" };
+  size_t pos = 0;
+  while ((pos = text.find('[', pos)) != std::string::npos)
+    {
+      const size_t close = text.find(']', pos);
+      const size_t eol = text.find('\n', pos);
+      const size_t assign = text.find(":=", pos);
+      if (close == std::string::npos || (eol != std::string::npos && close > eol) || assign == std::string::npos || assign < close
+          || (eol != std::string::npos && assign > eol))
+        {
+          ++pos;
+          continue; // not an index of a keyword
+        }
+      const std::string idx = text.substr(pos + 1, close - pos - 1);
+      bool numeric = !idx.empty();
+      for (char c : idx)
+        if (!isdigit((unsigned char)c) && c != ' ')
+          numeric = false;
+      if (numeric)
+        {
+          for (const char* r : repl)
+            out.push_back(std::make_pair(text.substr(0, pos + 1) + r + text.substr(close), (long)pos));
+          out.push_back(std::make_pair(text.substr(0, pos + 1) + std::to_string(atol(idx.c_str()) + 1) + text.substr(close), (long)pos));
+        }
+      pos = close;
+    }
+  return out;
+}
+
 // ---------------------------------------------------------------- registries
 struct RootOps
 {
@@ -109,6 +146,9 @@ struct RootOps
   std::vector<std::string> names;
   // parse `text` into a new object of registered type `name`; returns its parameter_info() or "<null>" if rejected
   std::function<std::string(const std::string& name, std::istream& in)> parse_and_print;
+  // a default-constructed object of the class (through the registry's factory with no input stream, i.e. the interactive
+  // ask_parameters() path with standard input at end-of-file: every question is answered with its default) printed
+  std::function<std::string(const std::string& name)> default_print;
 };
 
 template <class Root>
@@ -159,6 +199,65 @@ make_root(const char* rootname)
         return "<error-printing>";
       }
   };
+  r.default_print = [](const std::string& name) -> std::string {
+    // Some classes' ask_parameters() loops for ever at end-of-file (nested type prompts, list prompts): the object is made
+    // in a child process with a time limit, and only its text comes back.  The text is a pure function of the class.
+    static std::map<std::string, std::string> cache;
+    const std::string key = std::string(typeid(Root).name()) + "/" + name;
+    auto it = cache.find(key);
+    if (it != cache.end())
+      return it->second;
+    int fds[2];
+    if (pipe(fds) != 0)
+      return "<error>";
+    fflush(nullptr);
+    const pid_t pid = fork();
+    if (pid == 0)
+      {
+        close(fds[0]);
+        alarm(5);
+        const int dn = open("/dev/null", O_WRONLY);
+        if (dn >= 0)
+          {
+            dup2(dn, 1);
+            dup2(dn, 2);
+          }
+        std::string out;
+        try
+          {
+            std::istringstream nothing("");
+            std::cin.rdbuf(nothing.rdbuf());
+            std::unique_ptr<Root> obj(Root::read_registered_object(nullptr, name));
+            out = obj ? obj->parameter_info() : std::string("<null>");
+          }
+        catch (...)
+          {
+            out = "<error>";
+          }
+        size_t done = 0;
+        while (done < out.size())
+          {
+            const ssize_t n = ::write(fds[1], out.data() + done, out.size() - done);
+            if (n <= 0)
+              break;
+            done += (size_t)n;
+          }
+        _exit(0);
+      }
+    close(fds[1]);
+    std::string out;
+    char buf[4096];
+    ssize_t n;
+    while ((n = ::read(fds[0], buf, sizeof buf)) > 0)
+      out.append(buf, (size_t)n);
+    close(fds[0]);
+    int st = 0;
+    waitpid(pid, &st, 0);
+    if (!WIFEXITED(st) || WEXITSTATUS(st) != 0 || out.empty())
+      out = "<error>"; // hung in an interactive loop (killed by the alarm) or died
+    cache[key] = out;
+    return out;
+  };
   return r;
 }
 
@@ -182,6 +281,24 @@ roots()
   return v;
 }
 
+// texts are compared modulo empty lines and trailing blanks (lay-out, not content)
+std::string
+canon(const std::string& text)
+{
+  std::istringstream in(text);
+  std::string l, out;
+  while (std::getline(in, l))
+    {
+      while (!l.empty() && (l.back() == ' ' || l.back() == '\t' || l.back() == '\r'))
+        l.pop_back();
+      if (!l.empty())
+        out += l + "\n";
+    }
+  return out;
+}
+
+long g_fault_at = -1;
+
 bool
 is_reject(const std::string& s)
 {
@@ -192,8 +309,7 @@ is_reject(const std::string& s)
 std::string
 default_text(const RootOps& r, const std::string& name)
 {
-  std::istringstream empty("\n");
-  return r.parse_and_print(name, empty);
+  return r.default_print(name);
 }
 
 void
@@ -203,7 +319,8 @@ check_allocation_cap(const char* what, const std::string& input_desc)
     {
       const long req = sim::alloc::largest_request();
       sim::alloc::reset();
-      sim::fail(std::string("unbounded_allocation:") + what, "an allocation of %ld bytes was requested while handling %s", req, input_desc.c_str());
+      sim::fail(std::string("unbounded_allocation:") + what, "an allocation of %ld bytes was requested while handling %s (fault at offset %ld)", req,
+                input_desc.c_str(), g_fault_at);
     }
 }
 
@@ -212,6 +329,7 @@ void
 consistent_or_rejected(const RootOps& r, const std::string& name, std::istream& in, const char* fault, long at)
 {
   sim::alloc::reset();
+  g_fault_at = at;
   std::string printed;
   try
     {
@@ -228,10 +346,20 @@ consistent_or_rejected(const RootOps& r, const std::string& name, std::istream& 
       sim::probe("damaged_text_rejected");
       return;
     }
-  // accepted: internally consistent means that what it prints for itself reproduces itself
+  // accepted: internally consistent means that what it prints for itself reproduces itself.  A first re-parse may normalise
+  // a degenerate value the damaged text produced (e.g. a weights array of shape 1x0x0 printed as {{}} and read back as {});
+  // from then on the description has to be stable.
   std::istringstream again(printed);
   std::string printed2 = r.parse_and_print(name, again);
-  if (printed2 != printed)
+  if (canon(printed2) != canon(printed) && !is_reject(printed2))
+    {
+      std::istringstream third(printed2);
+      const std::string printed3 = r.parse_and_print(name, third);
+      sim::probe("damaged_text_object_normalised_by_first_reparse");
+      printed = printed2;
+      printed2 = printed3;
+    }
+  if (canon(printed2) != canon(printed))
     sim::fail(std::string("inconsistent_object_from_damaged_text:") + fault,
               "%s/%s: text damaged by %s at %ld was accepted, but the object does not reproduce itself from its own parameter text", r.root.c_str(),
               name.c_str(), fault, at);
@@ -269,10 +397,10 @@ op_registry(const Plan& p, const Op& op, sim::Result& res)
         sim::probe("default_text_refused_by_own_checks");
         return;
       }
-    if (t2 != text)
+    if (canon(t2) != canon(text))
       {
         // find first differing line
-        std::istringstream a(text), b(t2);
+        std::istringstream a(canon(text)), b(canon(t2));
         std::string la, lb;
         int ln = 0;
         while (std::getline(a, la) && std::getline(b, lb) && la == lb)
@@ -309,7 +437,7 @@ op_registry(const Plan& p, const Op& op, sim::Result& res)
         }
       std::istringstream in2(mod.str());
       const std::string t3 = r.parse_and_print(name, in2);
-      if (t3 != text)
+      if (canon(t3) != canon(text))
         sim::fail("keyword_matching:case_and_white_space", "%s/%s: the same text with other letter case / blanks in the keywords parses to a different object",
                   r.root.c_str(), name.c_str());
       sim::probe("case_whitespace_variant_checked");
@@ -341,7 +469,7 @@ op_registry(const Plan& p, const Op& op, sim::Result& res)
       FaultyBuf fb(text, -1, false);
       std::istream in(&fb);
       const std::string t4 = r.parse_and_print(name, in);
-      if (t4 != text)
+      if (canon(t4) != canon(text))
         sim::fail("short_reads_not_transparent", "%s/%s: the same text delivered in pieces of <= 7 bytes parses differently", r.root.c_str(),
                   name.c_str());
       sim::fired("R_SHORT", 1);
@@ -357,6 +485,93 @@ op_registry(const Plan& p, const Op& op, sim::Result& res)
           ++nfaults;
         }
       sim::fired("FLIP", nfaults);
+    }
+  else if (op.kind == "registry_index")
+    {
+      for (auto& m : index_mutations(text))
+        {
+          std::istringstream in(m.first);
+          consistent_or_rejected(r, name, in, "INDEX", m.second);
+          ++nfaults;
+        }
+      sim::fired("INDEX", nfaults);
+      if (nfaults == 0)
+        sim::probe("class_without_vectorised_keys");
+    }
+  else if (op.kind == "registry_values")
+    {
+      // objects that are NOT in their default state: every key whose default value is empty gets a value, one key at a time
+      // and all together; the text is accepted or rejected, an accepted text must be a fixed point of print -> parse -> print,
+      // and a value given to such a free-text key must still be there in what the object prints (a line may not be swallowed)
+      std::vector<std::string> lines;
+      {
+        std::istringstream in(text);
+        std::string l;
+        while (std::getline(in, l))
+          lines.push_back(l);
+      }
+      std::vector<size_t> empty_valued;
+      for (size_t i = 0; i < lines.size(); ++i)
+        {
+          const size_t a = lines[i].find(":=");
+          if (a == std::string::npos)
+            continue;
+          std::string v = lines[i].substr(a + 2), k = lines[i].substr(0, a);
+          while (!v.empty() && isspace((unsigned char)v.back()))
+            v.pop_back();
+          while (!v.empty() && isspace((unsigned char)v.front()))
+            v.erase(v.begin());
+          std::string kl;
+          for (char c : k)
+            kl += (char)tolower((unsigned char)c);
+          if (v.empty() && kl.find("end") == std::string::npos && kl.find("parameters") == std::string::npos && kl.find("type") == std::string::npos)
+            empty_valued.push_back(i);
+        }
+      if (empty_valued.empty())
+        sim::probe("class_without_free_text_keys");
+      for (size_t which = 0; which <= empty_valued.size(); ++which)
+        {
+          if (which == empty_valued.size() && empty_valued.size() < 2)
+            break;
+          std::ostringstream t;
+          std::vector<std::string> tokens;
+          for (size_t j = 0; j < lines.size(); ++j)
+            {
+              bool mutate = false;
+              for (size_t e = 0; e < empty_valued.size(); ++e)
+                if (empty_valued[e] == j && (which == empty_valued.size() || which == e))
+                  mutate = true;
+              if (mutate)
+                {
+                  const std::string tok = "zq" + std::to_string(j) + "x";
+                  tokens.push_back(tok);
+                  t << lines[j].substr(0, lines[j].find(":=") + 2) << " " << tok << "\n";
+                }
+              else
+                t << lines[j] << "\n";
+            }
+          sim::alloc::reset();
+          std::istringstream in(t.str());
+          const std::string t1 = r.parse_and_print(name, in);
+          check_allocation_cap("VALUE", r.root + "/" + name + " text");
+          ++nfaults;
+          if (is_reject(t1))
+            {
+              sim::probe("non_default_value_refused"); // e.g. a file name that post-processing tries to open
+              continue;
+            }
+          std::istringstream again(t1);
+          const std::string t2 = r.parse_and_print(name, again);
+          if (canon(t2) != canon(t1))
+            sim::fail("round_trip:parameter_text:non_default", "%s/%s: an object with non-default values does not reproduce itself from its own parameter text",
+                      r.root.c_str(), name.c_str());
+          for (auto& tok : tokens)
+            if (t1.find(tok) == std::string::npos)
+              sim::fail("round_trip:value_lost", "%s/%s: the value '%s' given to a key in otherwise self-printed text was accepted but is missing from what the object prints",
+                        r.root.c_str(), name.c_str(), tok.c_str());
+          sim::probe("non_default_object_round_trip");
+        }
+      sim::fired("VALUE", nfaults);
     }
   else if (op.kind == "registry_lines")
     {
@@ -694,6 +909,16 @@ op_interfile(const Plan& p, const Op& op, sim::Result& res)
           }
       sim::fired("LINE", n);
     }
+  else if (op.kind.find("index") != std::string::npos)
+    {
+      for (auto& m : index_mutations(header))
+        {
+          spit_text(header_path, m.first);
+          check("INDEX", m.second);
+          ++n;
+        }
+      sim::fired("INDEX", n);
+    }
   else if (op.kind.find("datasize") != std::string::npos)
     {
       // header intact, data file shorter (every 1/32nd) or longer
@@ -743,10 +968,11 @@ gen(uint64_t seed, const std::string& tier, long idx)
   p.cfg["max_positions"] = tier == "thorough" ? 1000000 : 300;
   static const char* kinds[] = { "registry_round_trip", "registry_eof", "registry_badbit", "registry_flip", "registry_lines", "keyparser",
                                  "interfile_pd_eof", "interfile_pd_flip", "interfile_pd_lines", "interfile_pd_datasize", "interfile_img_eof",
-                                 "interfile_img_flip", "interfile_img_lines", "interfile_img_datasize", "keyparser", "registry_round_trip" };
+                                 "interfile_img_flip", "interfile_img_lines", "interfile_img_datasize", "keyparser", "registry_round_trip",
+                                 "registry_values", "registry_index", "interfile_pd_index", "interfile_img_index" };
   Op o;
-  o.kind = kinds[idx % 16];
-  o.a.push_back(idx / 16 + (long)r.below(3) * 1000003L); // class index walks through all registered classes
+  o.kind = kinds[idx % 20];
+  o.a.push_back(idx / 20 + (long)r.below(3) * 1000003L); // class index walks through all registered classes
   o.a.push_back((long)r.below(100000));
   p.ops.push_back(o);
   (void)tier;
